@@ -5,7 +5,7 @@ import ast
 
 from sa.engine.absinterp import Evaluator  # noqa: F401  (kept for the partition evaluation below)
 from sa.engine.context import Ctx
-from sa.engine.loader import AnalysisError, dotted, norm, short, walk_own
+from sa.engine.loader import AnalysisError, dotted, norm, short, walk_own, is_noise
 from sa.engine.report import Finding, RuleReport
 from sa.rules.c02 import run_walk
 from sa.rules.common import DT, X, implementers
@@ -196,7 +196,7 @@ def _run_predicate(fn: ast.FunctionDef, value):
 
     def block(stmts):
         for s in stmts:
-            if isinstance(s, ast.Expr) and isinstance(s.value, ast.Constant):
+            if is_noise(s):
                 continue
             if isinstance(s, ast.Return):
                 return ("ret", _peval(s.value, env) if s.value is not None else None)
